@@ -47,7 +47,8 @@ theorem writer_run_tie (ks : List Thread) (drift : Nat) (k F : Nat) (ws : Nat â†
   have hl : inputsAt inp 1 (wloopInputs k ws e) := hin.2
   have hloop := fun env log N hN =>
     writer_loop_tie' ks (Updater.new drift) k ws hdone hwf e he nowNs inp env log 1 hl N hN
-  simp only [updaterValue, Updater.new, ctimespecValue] at hloop
+  have e0 : ((0 : Nat) : Int) = 0 := rfl
+  simp only [updaterValue, Updater.new, ctimespecValue, e0] at hloop
   simp [rs_eval, rs_code, abstracted, ascribe_contextValue', h0, â†“wloopCall_wrap]
   rw [hloop _ _ _ (by omega)]
   cases e <;> simp [rs_eval, wloopResult, writerOutcome, shmPathValue]
